@@ -19,7 +19,7 @@ import z3
 from pyvc import plug_hdf as H
 from pyvc.contract import Contract, LoopSpec, register, schema
 from pyvc.plug_hdf import ATTRS, EAT, EDS, GROUP, TDsetHandle
-from pyvc.values import StrS, TObj, TStr, TVal, ValS, str_lit
+from pyvc.values import StrS, TAddr, TObj, TStr, TVal, ValS, str_lit
 
 SING = "gemseo.caches._hdf5_file_singleton.HDF5FileSingleton"
 schema(SING + "#c11", {})
@@ -84,7 +84,8 @@ class ReadSparseArray(Contract):
     prop = ("C05", "C11")
     self_schema = SING + "#c11"
     params = {"dataset": TDsetHandle}
-    returns = TVal
+    returns = TAddr("arr", TVal)
+    modifies = ("heap:arr",)
 
     def _where(self, c):
         h = c.old.dataset.obj
@@ -94,13 +95,19 @@ class ReadSparseArray(Contract):
     def requires(self, c):
         ds, at, nm = self._where(c)
         # call site (read_data): the `sparse` flag is set, i.e. the dataset was written by __write_sparse_array
-        return [("written-as-sparse-dataset", is_sparse_dataset(ds, at, nm))]
+        return [("dataset-exists", ds.has(nm)),
+                ("flagged-sparse", z3.And(attr_has(at, nm, A_SPARSE), H.val_truthy(attr_val(at, nm, A_SPARSE)))),
+                ("csr-components-present", z3.And(attr_has(at, nm, A_INDICES), attr_has(at, nm, A_INDPTR), attr_has(at, nm, A_SHAPE)))]
 
     def ensures(self, c):
         ds, at, nm = self._where(c)
-        r = c.result
-        return [("is-a-csr-array", z3.And(H.is_sparse(r), H.sp_fmt(r) == H.FMT_CSR)),
-                ("denotes-the-stored-matrix", H.sp_mat(r) == stored_matrix(ds, at, nm))]
+        h0, h1 = c.old_sym("arr", ValS), c.new_sym("arr", ValS)
+        a = z3.Int("a!rs")
+        r = h1[c.result]
+        return [("is-a-new-csr-array", z3.And(c.result > c.old_ctr, c.result <= c.new_ctr, H.is_sparse(r), H.sp_fmt(r) == H.FMT_CSR,
+                                              z3.Not(H.np_dtype_is_bytes(r)), z3.Not(H.np_dtype_is_str(r)))),
+                ("denotes-the-stored-matrix", H.sp_mat(r) == stored_matrix(ds, at, nm)),
+                ("heap-preserved", z3.And(c.new_ctr >= c.old_ctr, z3.ForAll([a], z3.Implies(a <= c.old_ctr, h1[a] == h0[a]))))]
 
 
 def C_view(c, ref):
@@ -123,3 +130,294 @@ class SparseRoundTrip(Contract):
         write_post = H.csr_den(d, i, p, s) == H.sp_mat(v)
         read_post = z3.And(H.is_sparse(r), H.sp_fmt(r) == H.FMT_CSR, H.sp_mat(r) == H.csr_den(d, i, p, s))
         return [("read(write(v))-is-the-same-matrix", z3.Implies(z3.And(write_post, read_post), H.sp_mat(r) == H.sp_mat(v)))]
+
+
+# =============================================================================== write_data / read_data over the whole cache file
+from pyvc import contract as C  # noqa: E402
+from pyvc.plug_hdf import CFILE_SCHEMA, sidx  # noqa: E402
+from pyvc.values import TBool, TInt, forall_pat as FA  # noqa: E402
+
+from contracts.c05_caches import ARR, DATA, allocated, cont, hashf, heap_preserved, kq  # noqa: E402
+from contracts import c05_full_cache as _FC  # noqa: E402,F401  (HashData: the assumed contract of hash_data used at the call site)
+
+schema(GROUP + "#cfile", CFILE_SCHEMA)
+CFILE = TObj(GROUP, schema_key=GROUP + "#cfile")
+schema(SING + "#file", {"_HDF5FileSingleton__file": CFILE, "hdf_file_path": TStr})
+FILE_F = "_HDF5FileSingleton__file"
+
+
+class CF:
+    """Specification view of the cache file in the entry (old) or exit/current (new) state."""
+
+    def __init__(self, c, which="old"):
+        f = getattr(getattr(c, which).self, FILE_F)
+        self.f = f
+        self.node, self.nmem = f.node, f.nmem
+        self.ents, self.hashes, self.grps, self.gds, self.gat = f.ents, f.hashes, f.grps, f.gds, f.gat
+        self.heap = c.old_sym("arr", ValS) if which == "old" else c.new_sym("arr", ValS)
+
+    def has_grp(self, p):
+        return self.grps.member[p]
+
+    def ds_mem(self, p):
+        return EDS.acc(0)(self.gds.vals[p])
+
+    def ds_val(self, p):
+        return EDS.acc(1)(self.gds.vals[p])
+
+    def at(self, p, name):
+        return EAT.acc(1)(self.gat.vals[p])[name]
+
+    def a_has(self, p, name, key):
+        return ATTRS.acc(0)(self.at(p, name))[key]
+
+    def a_val(self, p, name, key):
+        return ATTRS.acc(1)(self.at(p, name))[key]
+
+    def flagged(self, p, name):
+        """What read_data tests: ``dataset.attrs.get("sparse")`` is truthy."""
+        return z3.And(self.a_has(p, name, A_SPARSE), H.val_truthy(self.a_val(p, name, A_SPARSE)))
+
+    def sparse_ok(self, p, name):
+        return z3.And(self.flagged(p, name), self.a_has(p, name, A_INDICES), self.a_has(p, name, A_INDPTR), self.a_has(p, name, A_SHAPE))
+
+    def matrix(self, p, name):
+        return H.csr_den(self.ds_val(p)[name], self.a_val(p, name, A_INDICES), self.a_val(p, name, A_INDPTR), self.a_val(p, name, A_SHAPE))
+
+
+def encodes(F: CF, p, name, content):
+    """The dataset ``name`` of the entry group p encodes the array ``content`` (what write_data must establish):
+    str arrays as bytes, sparse arrays as the CSR triple of their matrix (flagged), anything else as is (not flagged)."""
+    d = F.ds_val(p)[name]
+    return z3.If(H.np_dtype_is_str(content), z3.And(d == H.np_to_bytes(content), z3.Not(F.flagged(p, name))),
+                 z3.If(H.is_sparse(content), z3.And(F.sparse_ok(p, name), F.matrix(p, name) == H.sp_mat(content)),
+                       z3.And(d == content, z3.Not(F.flagged(p, name)))))
+
+
+def decodes(F: CF, p, name, content):
+    """``content`` is what read_data returns for the dataset: the CSR array of the stored triple if flagged, else the stored array,
+    converted to str if it is a bytes array."""
+    d = F.ds_val(p)[name]
+    return z3.If(F.flagged(p, name), z3.And(H.is_sparse(content), H.sp_fmt(content) == H.FMT_CSR, H.sp_mat(content) == F.matrix(p, name)),
+                 z3.If(H.np_dtype_is_bytes(d), content == H.np_to_str(d), content == d))
+
+
+def file_wf(F: CF):
+    """Well-formedness of a file written by write_data: a dataset flagged sparse carries the three CSR component attributes;
+    groups belong to entries."""
+    p, s = z3.Const("p!fw", StrS), z3.Const("s!fw", StrS)
+    return [("wf:flagged-datasets-carry-the-csr-components", FA([p, s], z3.Implies(z3.And(F.has_grp(p), F.ds_mem(p)[s], F.flagged(p, s)), F.sparse_ok(p, s)), F.ds_mem(p)[s])),
+            ("wf:groups-belong-to-entries", FA([p], z3.Implies(F.has_grp(p), F.ents.member[H.h5_path_e(p)]), F.grps.member[p])),
+            ("wf:node", z3.Implies(z3.Not(F.node), z3.ForAll([s], z3.Not(F.ents.member[s]))))]
+
+
+def _cpath(c):
+    return H.h5_path(sidx(c.old.index), sterm(c.old.group))
+
+
+def sterm(x):
+    return str_lit(x) if isinstance(x, str) else x
+
+
+def others_kept(F0: CF, F1: CF, p):
+    q = z3.Const("q!ok", StrS)
+    return z3.ForAll([q], z3.Implies(q != p, z3.And(F1.has_grp(q) == F0.has_grp(q), F1.gds.vals[q] == F0.gds.vals[q], F1.gat.vals[q] == F0.gat.vals[q])))
+
+
+def _entry_facts(c, F0, F1):
+    """Effect of the prelude of write_data on the entries and their hash datasets."""
+    me = sidx(c.old.index)
+    s = z3.Const("s!ef", StrS)
+    return [
+        ("entries", z3.ForAll([s], F1.ents.member[s] == z3.Or(F0.ents.member[s], s == me))),
+        ("hash", z3.If(F0.hashes.has(me), F1.hashes.get(me) == F0.hashes.get(me),
+                       z3.And(F1.hashes.has(me), F1.hashes.get(me) == H.hash_bytes(hashf(cont(c.old.data, F0.heap)))))),
+        ("other-hashes-kept", z3.ForAll([s], z3.Implies(s != me, z3.And(F1.hashes.has(s) == F0.hashes.has(s), F1.hashes.get(s) == F0.hashes.get(s))))),
+    ]
+
+
+def _write_inv(c, k):
+    """After the first k names of ``data``: each is a dataset of the entry group encoding its array; nothing else was touched."""
+    F0, F1 = CF(c), CF(c, "new")
+    p = _cpath(c)
+    data = c.old.data
+    h0 = F0.heap
+    i, s = z3.Int("i!wi"), z3.Const("s!wi", StrS)
+    keys, pos = c.seq.keys, c.seq.pos
+    was = lambda t: z3.And(F0.has_grp(p), F0.ds_mem(p)[t])  # noqa: E731
+    return [
+        ("group-exists", z3.And(F1.has_grp(p), F1.ents.member[sidx(c.old.index)], F1.node)),
+        ("written", FA([i], z3.Implies(z3.And(0 <= i, i < k), z3.And(F1.ds_mem(p)[keys[i]], encodes(F1, p, keys[i], h0[data.vals[keys[i]]]))), keys[i])),
+        ("datasets", FA([s], F1.ds_mem(p)[s] == z3.Or(was(s), z3.And(data.member[s], pos[s] < k)), F1.ds_mem(p)[s])),
+        ("old-datasets-kept", FA([s], z3.Implies(was(s), z3.And(F1.ds_val(p)[s] == F0.ds_val(p)[s], F1.at(p, s) == F0.at(p, s))), F0.ds_mem(p)[s])),
+        ("other-groups-kept", others_kept(F0, F1, p)),
+        ("heap", c.new_sym("arr", ValS) == h0),
+        ("no-clash-so-far", FA([s], z3.Implies(z3.And(data.member[s], pos[s] < k), z3.Not(was(s))), data.member[s])),
+    ] + _entry_facts(c, F0, F1) + file_wf(F1)[1:2]
+
+
+class _Sing(Contract):
+    prop = ("C05", "C11")
+    self_schema = SING + "#file"
+
+
+@register
+class WriteData(_Sing):
+    """Every array of ``data`` becomes a dataset of the entry group root/<index>/<group> ENCODING it (str arrays as bytes, sparse
+    arrays of any format as the CSR triple of their matrix, other arrays as is); the entry gets the hash of the data if it had none;
+    every other group and entry is unchanged.  RuntimeError iff a name of ``data`` is already a dataset of the group."""
+
+    targets = (SING + ".write_data",)
+    params = {"data": DATA, "group": TStr, "index": TInt, "hdf_node_path": TStr}
+    modifies = ("self." + FILE_F,)
+    loops = {0: LoopSpec(anchor="data.items()", modifies=("self." + FILE_F, "entry_group"), inv=_write_inv, local_types={"name": TStr, "value": ARR})}
+
+    def clash(self, c):
+        F0 = CF(c)
+        p = _cpath(c)
+        k = kq("k!cl")
+        return z3.Not(z3.ForAll([k], z3.Implies(c.old.data.has(k), z3.Not(z3.And(F0.has_grp(p), F0.ds_mem(p)[k])))))
+
+    @property
+    def raises(self):
+        return {"RuntimeError": self.clash}
+
+    def requires(self, c):
+        F0 = CF(c)
+        k = kq("k!wr")
+        h0 = F0.heap
+        return [("data-allocated", allocated(c.old.data, c.old_ctr)), ("type:members", F0.nmem >= 0),
+                # call sites (BaseFullCache): input/output data are numeric or str arrays, Jacobians numeric dense or sparse arrays
+                ("str-arrays-are-dense", z3.ForAll([k], z3.Implies(c.old.data.has(k), z3.Not(z3.And(H.np_dtype_is_str(h0[c.old.data.get(k)]), H.is_sparse(h0[c.old.data.get(k)]))))))] + file_wf(F0)
+
+    def ensures(self, c):
+        F0, F1 = CF(c), CF(c, "new")
+        p = _cpath(c)
+        data = c.old.data
+        h0 = F0.heap
+        me = sidx(c.old.index)
+        k, s = kq("k!wd"), z3.Const("s!wd", StrS)
+        was = lambda t: z3.And(F0.has_grp(p), F0.ds_mem(p)[t])  # noqa: E731
+        return [
+            ("group-exists", z3.And(F1.node, F1.ents.member[me], F1.has_grp(p))),
+            ("every-array-is-encoded", z3.ForAll([k], z3.Implies(data.has(k), z3.And(F1.ds_mem(p)[k], encodes(F1, p, k, h0[data.get(k)]))))),
+            ("datasets", z3.ForAll([s], F1.ds_mem(p)[s] == z3.Or(was(s), data.has(s)))),
+            ("old-datasets-kept", z3.ForAll([s], z3.Implies(was(s), z3.And(F1.ds_val(p)[s] == F0.ds_val(p)[s], F1.at(p, s) == F0.at(p, s))))),
+            ("other-groups-kept", others_kept(F0, F1, p)),
+        ] + _entry_facts(c, F0, F1) + file_wf(F1)
+
+
+@register
+class SingHasGroup(_Sing):
+    targets = (SING + "._has_group",)
+    params = {"index": TInt, "group": TStr, "hdf_node_path": TStr}
+    returns = TBool
+    raises = {"KeyError": lambda c: z3.Not(CF(c).node)}
+
+    def requires(self, c):
+        return file_wf(CF(c))
+
+    def ensures(self, c):
+        F0 = CF(c)
+        return [("value", c.result == z3.And(F0.ents.member[sidx(c.old.index)], F0.has_grp(_cpath(c))))]
+
+
+def _read_inv1(c, k):
+    """After k datasets of the group: ``data`` holds the decoded value of each (before the bytes -> str pass)."""
+    F0 = CF(c)
+    p = _cpath(c)
+    data = c.locals["data"]
+    h1 = c.new_sym("arr", ValS)
+    i, s = z3.Int("i!r1"), z3.Const("s!r1", StrS)
+    keys, pos = c.seq.keys, c.seq.pos
+    d = lambda t: F0.ds_val(p)[t]  # noqa: E731
+    val = lambda t: h1[data.vals[t]]  # noqa: E731
+    return [
+        ("read", z3.ForAll([i], z3.Implies(z3.And(0 <= i, i < k), z3.And(data.member[keys[i]], data.vals[keys[i]] > 0, data.vals[keys[i]] <= c.new_ctr,
+                                                                           z3.If(F0.flagged(p, keys[i]),
+                                                                                 z3.And(H.is_sparse(val(keys[i])), H.sp_fmt(val(keys[i])) == H.FMT_CSR, z3.Not(H.np_dtype_is_bytes(val(keys[i]))), H.sp_mat(val(keys[i])) == F0.matrix(p, keys[i])),
+                                                                                 val(keys[i]) == d(keys[i])))), patterns=[keys[i]])),
+        ("names", FA([s], data.member[s] == z3.And(F0.ds_mem(p)[s], pos[s] < k), data.member[s])),
+        ("heap", heap_preserved(c)),
+    ]
+
+
+def _pre_loop(c):
+    """State at the entry of the loop being verified: (locals, array heap, allocation counter)."""
+    heap0 = c.st.ex._loop_pre[0]
+    return c.pre_locals, heap0.sym.get("arr", c.old_sym("arr", ValS)), heap0.ctr
+
+
+def _read_inv2(c, k):
+    """bytes -> str pass: the first k names hold a (new) str array if they held a bytes array, everything else is as before the pass."""
+    data = c.locals["data"]
+    pre, hpre, cpre = _pre_loop(c)
+    pdata = pre["data"]
+    h1 = c.new_sym("arr", ValS)
+    s, a = z3.Const("s!r2", StrS), z3.Int("a!r2")
+    pos = c.seq.pos
+    before = lambda t: hpre[pdata.vals[t]]  # noqa: E731
+    return [
+        ("names", FA([s], data.member[s] == pdata.member[s], data.member[s])),
+        ("not-yet-visited:unchanged", FA([s], z3.Implies(z3.And(pdata.member[s], pos[s] >= k), data.vals[s] == pdata.vals[s]), data.vals[s])),
+        ("visited:converted", FA([s], z3.Implies(z3.And(pdata.member[s], pos[s] < k),
+                                                 z3.And(data.vals[s] > 0, data.vals[s] <= c.new_ctr,
+                                                        h1[data.vals[s]] == z3.If(H.np_dtype_is_bytes(before(s)), H.np_to_str(before(s)), before(s)))), data.vals[s])),
+        ("heap-since-the-pass-began", z3.And(c.new_ctr >= cpre, z3.ForAll([a], z3.Implies(a <= cpre, h1[a] == hpre[a])))),
+        ("heap", heap_preserved(c)),
+    ]
+
+
+@register
+class ReadData(_Sing):
+    """Returns, for every dataset of the entry group root/<index>/<group>, the array it DECODES to (fresh arrays): the CSR array
+    of the stored triple for a dataset flagged sparse, the stored array otherwise (bytes converted back to str); ``{}`` when the
+    entry or the group does not exist; the file is not modified.  KeyError iff the node does not exist."""
+
+    targets = (SING + ".read_data",)
+    params = {"index": TInt, "group": TStr, "hdf_node_path": TStr}
+    returns = DATA
+    modifies = ("heap:arr",)
+    raises = {"KeyError": lambda c: z3.Not(CF(c).node)}
+    loops = {0: LoopSpec(anchor="entry[group].items()", modifies=("data", "heap:arr"), inv=_read_inv1, local_types={"data": DATA, "key": TStr}),
+             1: LoopSpec(anchor="data.items()", modifies=("data", "heap:arr"), inv=_read_inv2, local_types={"name": TStr, "value": ARR})}
+
+    def requires(self, c):
+        return file_wf(CF(c))
+
+    def ensures(self, c):
+        F0 = CF(c)
+        p = _cpath(c)
+        r = c.result
+        h1 = c.new_sym("arr", ValS)
+        s = z3.Const("s!rd", StrS)
+        present = z3.And(F0.ents.member[sidx(c.old.index)], F0.has_grp(p))
+        return [
+            ("absent:empty", z3.Implies(z3.Not(present), r.n == 0)),
+            ("names", z3.Implies(present, z3.ForAll([s], r.has(s) == F0.ds_mem(p)[s]))),
+            ("values-decode-the-datasets", z3.Implies(present, z3.ForAll([s], z3.Implies(r.has(s), decodes(F0, p, s, h1[r.get(s)]))))),
+            ("result-allocated", allocated(r, c.new_ctr)),
+            ("heap-preserved", heap_preserved(c)),
+        ]
+
+
+@register
+class CacheFileRoundTrip(Contract):
+    """Lemmas over the contracts of write_data and read_data: a dataset that ENCODES an array DECODES to an equal array - dense
+    arrays equal (str arrays through bytes), sparse arrays equal AS MATRICES - under the assumed numpy/scipy facts named in the
+    hypotheses (a str array converted to bytes is a bytes array and converts back; numeric and sparse arrays are not bytes arrays)."""
+
+    targets = ()
+    prop = ("C05", "C11")
+    lemma = True
+
+    def lemmas(self):
+        c, r, d, i, p, s, fl = (z3.Const(n, ValS) for n in ("c", "r", "d", "i", "p", "s", "flag"))
+        flagged = z3.Bool("flagged")
+        stored_m = H.csr_den(d, i, p, s)
+        enc = z3.If(H.np_dtype_is_str(c), z3.And(d == H.np_to_bytes(c), z3.Not(flagged)),
+                    z3.If(H.is_sparse(c), z3.And(flagged, stored_m == H.sp_mat(c)), z3.And(d == c, z3.Not(flagged))))
+        dec = z3.If(flagged, z3.And(H.is_sparse(r), H.sp_fmt(r) == H.FMT_CSR, H.sp_mat(r) == stored_m), z3.If(H.np_dtype_is_bytes(d), r == H.np_to_str(d), r == d))
+        facts = z3.And(*H.astype_facts(c), z3.Implies(z3.Not(H.np_dtype_is_str(c)), z3.Not(H.np_dtype_is_bytes(c))))  # (data are str, numeric or sparse arrays: never bytes arrays)
+        same = z3.If(H.is_sparse(c), z3.And(H.is_sparse(r), H.sp_mat(r) == H.sp_mat(c)), r == c)
+        return [("decode(encode(array))-is-an-equal-array", z3.Implies(z3.And(enc, dec, facts, z3.Not(z3.And(H.np_dtype_is_str(c), H.is_sparse(c)))), same))]
